@@ -66,8 +66,23 @@ pub proof fn lemma_top_limb_bracket(s: Seq<u64>, i: int, n: int)
     assert(bp(i) * (s[i] as int + 1) == bp(i) * s[i] as int + bp(i)) by(nonlinear_arith);
 }
 
+// N14: `s.iter().rposition(|&x| x != 0)` is routed through this wrapper whose body IS that expression.
+// ASSUMED (label A, std's Iterator::rposition): last index holding a non-zero limb, or None. Kani: c14::c14_rposition_*.
+#[verifier::external_body]
+pub fn rposition_nonzero_arr<const N: usize>(s: &[u64; N]) -> (r: Option<usize>)
+    ensures (match r {
+        Some(i) => i < N && s[i as int] != 0 && (forall|j: int| i < j < N ==> s[j] == 0),
+        None => forall|j: int| 0 <= j < N ==> s[j] == 0 })
+{ s.iter().rposition(|&limb| limb != 0) }
+// N14: `s.first().copied().unwrap_or(0)`: the first limb, or 0 for an empty array (std's slice::first / Option::copied)
+#[verifier::external_body]
+pub fn first_or_zero<const N: usize>(s: &[u64; N]) -> (r: u64)
+    ensures r == (if N == 0 { 0u64 } else { s[0] })
+{ s.first().copied().unwrap_or(0) }
+
 impl<const BITS: usize, const LIMBS: usize> Uint<BITS, LIMBS> {
 //@ import core MASK
+//@ import core as_limbs
 
     pub proof fn lemma_val_lvr(self)
         ensures lvr(self.limbs@, 0, LIMBS as int) == self.val(), bp(LIMBS as int) == pow2(64 * LIMBS as nat)
@@ -173,6 +188,98 @@ impl<const BITS: usize, const LIMBS: usize> Uint<BITS, LIMBS> {
             if k2 < k1 { lemma_pow2_strictly_increases(k2, k1); if k2 < k1 - 1 { lemma_pow2_strictly_increases(k2, (k1 - 1) as nat); } }
         }
     }
+//@ extract src/bits.rs fn most_significant_bits rewrite="self . as_limbs ( ) . iter ( ) . rposition ( | & limb | limb != 0 )" => "rposition_nonzero_arr(self.as_limbs())" #1 rewrite="self . as_limbs ( ) . first ( ) . copied ( ) . unwrap_or ( 0 )" => "first_or_zero(self.as_limbs())" #1
+    pub fn most_significant_bits(&self) -> /*+*/(r:/*-*/ (u64, usize)/*+*/)
+        requires self.wf(), BITS <= usize::MAX - 63
+        ensures
+            // the top 64 significant bits and the matching exponent: bits == floor(value / 2^exponent), normalised unless the value fits a word
+            r.0 as int == (self.val() as int) / (pow2(r.1 as nat) as int),
+            r.1 > 0 ==> r.0 >= 0x8000_0000_0000_0000,
+            self.val() < 0x1_0000_0000_0000_0000 ==> r.1 == 0,/*-*/
+    {
+        /*+*/proof { self.lemma_val_lvr(); lemma2_to64(); lemma_pow2_64(); }/*-*/
+        let first_set_limb = rposition_nonzero_arr(self.as_limbs())
+            .unwrap_or(0);
+        /*+*/let ghost n = LIMBS as int; let ghost f = first_set_limb as int;
+        proof {
+            // everything above first_set_limb is zero
+            if n > 0 { lemma_lvr_trailing_zeros(self.limbs@, 0, f + 1, n); }
+        }/*-*/
+        if first_set_limb == 0 {
+            /*+*/proof {
+                if n > 0 {
+                    assert(lvr(self.limbs@, 0, 1) == self.limbs[0] as int) by { assert(lvr(self.limbs@, 1, 1) == 0); assert(B * 0 == 0); }
+                    lemma_div_basics(self.limbs[0] as int);
+                } else { assert(lvr(self.limbs@, 0, 0) == 0); }
+            }/*-*/
+            (first_or_zero(self.as_limbs()), 0)
+        } else {
+            let hi = self.as_limbs()[first_set_limb];
+            let lo = self.as_limbs()[first_set_limb - 1];
+            let leading_zeros = hi.leading_zeros();
+            /*+*/proof {
+                lemma_lz_facts(hi);
+                let lz = leading_zeros as nat;
+                // value == low + B^(f-1) * (lo + B*hi), low < B^(f-1)
+                lemma_lvr_split(self.limbs@, 0, f - 1, f + 1);
+                lemma_lvr_bound(self.limbs@, 0, f - 1);
+                assert(lvr(self.limbs@, f - 1, f + 1) == lo as int + B * hi as int) by {
+                    assert(lvr(self.limbs@, f + 1, f + 1) == 0); assert(B * 0 == 0);
+                    assert(lvr(self.limbs@, f, f + 1) == hi as int);
+                }
+                let low = lvr(self.limbs@, 0, f - 1); let w = bp(f - 1);
+                lemma_bp_pos(f - 1); lemma_bp_is_pow2((f - 1) as nat);
+                let c = (64 - lz) as nat; let pc = pow2(c) as int; let ps = pow2(lz) as int;
+                lemma_pow2_pos(c); lemma_pow2_pos(lz); lemma_pow2_adds(c, lz);
+                // exponent == 64*(f-1) + c
+                lemma_pow2_adds((64 * (f - 1)) as nat, c);
+                let top = lo as int + B * hi as int;
+                assert(self.val() as int == w * top + low);
+                assert(top >= 0) by(nonlinear_arith) requires top == lo as int + B * hi as int, lo as int >= 0, hi as int >= 0;
+                lemma_mul_is_commutative(w, top);
+                lemma_fundamental_div_mod_converse(self.val() as int, w, top, low);
+                lemma_div_denominator(self.val() as int, w, pc);
+                // (lo + B*hi) / 2^c == hi * 2^lz + lo / 2^c
+                lemma_fundamental_div_mod(lo as int, pc); lemma_mod_bound(lo as int, pc);
+                let q = (lo as int) / pc; let rr = (lo as int) % pc;
+                assert(top == pc * (hi as int * ps + q) + rr) by(nonlinear_arith)
+                    requires top == lo as int + B * hi as int, lo as int == pc * q + rr, pc * ps == B;
+                lemma_fundamental_div_mod_converse(top, pc, hi as int * ps + q, rr);
+                if lz > 0 {
+                    lemma_shl_or_shr_u64(hi, lo, leading_zeros);
+                    // hi < 2^c so hi % 2^c == hi
+                    assert((hi as int) < pc) by(nonlinear_arith) requires (hi as int) * ps < B, pc * ps == B, ps >= 1, pc >= 1;
+                    lemma_small_mod(hi as nat, pc as nat);
+                    assert(q < ps);
+                } else {
+                    assert(ps == 1 && pc == B);
+                    lemma_basic_div(lo as int, B);
+                    assert(hi as int * 1 == hi as int) by(nonlinear_arith);
+                }
+                assert(q >= 0) by { lemma_div_pos_is_pos(lo as int, pc); }
+            }/*-*/
+            let bits = if leading_zeros > 0 {
+                (hi << leading_zeros) | (lo >> (64 - leading_zeros))
+            } else {
+                hi
+            };
+            let exponent = first_set_limb * 64 - leading_zeros as usize;
+            /*+*/proof {
+                assert(bits as int >= 0x8000_0000_0000_0000) by {
+                    let ps = pow2(leading_zeros as nat) as int;
+                    assert(B / 2 == 0x8000_0000_0000_0000);
+                }
+                // the value has more than 64 bits
+                lemma_lvr_split(self.limbs@, 0, f, f + 1);
+                lemma_lvr_bound(self.limbs@, 0, f); lemma_bp_pos(f);
+                assert(lvr(self.limbs@, f, f + 1) == hi as int) by { assert(lvr(self.limbs@, f + 1, f + 1) == 0); assert(B * 0 == 0); }
+                assert(bp(f) >= B) by { lemma_bp_add(1, f - 1); assert(bp(1) == B) by { assert(bp(0) == 1); assert(B * 1 == B); }; lemma_bp_pos(f - 1); assert(B * bp(f - 1) >= B) by(nonlinear_arith) requires bp(f - 1) >= 1; }
+                assert(bp(f) * hi as int >= B) by(nonlinear_arith) requires bp(f) >= B, hi as int >= 1;
+            }/*-*/
+            (bits, exponent)
+        }
+    }
+//@ end
 }
 
 } // verus!
